@@ -15,7 +15,7 @@ RULE = ("cases = D x N (odd and even) x helper; mode_location enumerates EVERY s
         "with random amplitude/phase (exhaustive over modes); distinct = (monitor, D, N, mode class: dc/nyquist/negative-leading/interior, "
         "indexing, scaling mode); non-trivial = a mode with k != 0 or a state with non-zero content")
 EXHAUSTIVE = True
-REQUIRED = {"roundtrip": {"quick": 30, "thorough": 150}, "mode_location": {"quick": 200, "thorough": 3000}, "scaling_arrays": {"quick": 40, "thorough": 150},
+REQUIRED = {"roundtrip": {"quick": 30, "thorough": 150}, "mode_location": {"quick": 200, "thorough": 1000}, "scaling_arrays": {"quick": 40, "thorough": 80},
             "norm_forward": 10, "reconstruction": 10, "coef_extraction": 30, "modes_slices": 10, "masks": 30, "grid": 20, "wrap_bc": 6, "indexing": 10}
 ASSUMPTIONS = ["oblique plane waves are not promised by coef_extraction (tensor-product signals are)", "float64 session except the float32 round trips"]
 AMBIENT = True            # thorough tier: the repository's own test-suite runs under this property's general monitor (rv/ambient.py)
